@@ -35,9 +35,9 @@ def workspaces(out, tier, seed):
     main, _ = scope_common.programs(out, tier, seed)
     rnd = random.Random(seed)
     n_gen, n_broken = (250, 250) if tier == "quick" else (3000, 3000)
-    sample = rnd.sample(main, min(n_gen, len(main)))
+    sample = main.sample(rnd, n_gen)
     ws = [{"files": [["m1", text_of(c)], ["m2", LIB]], "label": "generated"} for c in sample]
-    for c in rnd.sample(main, min(n_broken, len(main))):
+    for c in main.sample(rnd, n_broken):
         ws.append({"files": [["m1", broken(text_of(c), rnd)], ["m2", broken(LIB, rnd) if rnd.random() < 0.3 else LIB]], "label": "broken"})
     # corpus: small files whole; the big stdlib file cut into item-aligned chunks (whole for thorough)
     for f in sorted(glob.glob(os.path.join(vlib.VERIF, "corpus", "**", "*.gleam"), recursive=True)):
